@@ -40,13 +40,13 @@ fn gen_cost(rng: &mut Rng) -> i32 {
     }
 }
 
-fn gen_word(rng: &mut Rng, nl: usize, nr: usize, with_space: bool, tag: &str, i: usize) -> AWord {
+fn gen_word(rng: &mut Rng, nl: usize, nr: usize, with_space: bool, astral_ok: bool, tag: &str, i: usize) -> AWord {
     let len = 1 + rng.below(4);
     let mut s = vec![];
     for _ in 0..len {
         if with_space && rng.chance(1, 6) {
             s.push(*rng.pick(SPACES));
-        } else if rng.chance(1, 12) {
+        } else if astral_ok && rng.chance(1, 12) {
             s.push(*rng.pick(ASTRAL));
         } else {
             s.push(*rng.pick(LETTERS));
@@ -168,7 +168,9 @@ pub fn gen_dict(rng: &mut Rng, cfg: &GenCfg) -> ADict {
     let space = cats.iter().position(|c| c.name == "SPACE");
     let nonspace: Vec<usize> = (0..cats.len()).filter(|&i| Some(i) != space).collect();
 
-    // range lines over the letters (U+0000 is never covered: F19)
+    // range lines over the letters.  U+0000 is covered in one dictionary out of eight; such a
+    // dictionary and its sentences then contain no astral characters (known finding F19: the pinned
+    // code gives them the information of U+0000; the probe of F19 covers that case on its own)
     let mut ranges = vec![];
     let isolated = cfg.space_isolated || rng.chance(3, 4);
     let nlines = if many { 6 + rng.below(8) } else { rng.below(6) };
@@ -190,6 +192,15 @@ pub fn gen_dict(rng: &mut Rng, cfg: &GenCfg) -> ADict {
             }
         }
         ranges.push(ARange { lo, hi, cs });
+    }
+    let nul_cover = rng.chance(1, 8);
+    if nul_cover {
+        let pos = rng.below(ranges.len() + 1);
+        ranges.insert(pos, ARange { lo: 0, hi: *rng.pick(&[0u32, 0x1F, 0x61]), cs: vec![*rng.pick(&nonspace)] });
+    }
+    if rng.chance(1, 6) {
+        // a last line that reaches the end of the BMP (the per-character table ends in a run that is not DEFAULT)
+        ranges.push(ARange { lo: 0xFFFF - (1 + rng.below(0x20)) as u32, hi: 0xFFFF, cs: vec![*rng.pick(&nonspace)] });
     }
     if let Some(sp) = space {
         // space characters
@@ -215,7 +226,7 @@ pub fn gen_dict(rng: &mut Rng, cfg: &GenCfg) -> ADict {
 
     let nlex = 1 + rng.below(8);
     let word_spaces = !isolated && rng.chance(1, 2);
-    let mut lex: Vec<AWord> = (0..nlex).map(|i| gen_word(rng, nl, nr, word_spaces, "s", i)).collect();
+    let mut lex: Vec<AWord> = (0..nlex).map(|i| gen_word(rng, nl, nr, word_spaces, !nul_cover, "s", i)).collect();
     // homographs and nested prefixes
     if !lex.is_empty() && rng.chance(1, 2) {
         let mut w = lex[rng.below(lex.len())].clone();
@@ -232,7 +243,7 @@ pub fn gen_dict(rng: &mut Rng, cfg: &GenCfg) -> ADict {
     }
     let user = if cfg.allow_user && rng.chance(1, 3) {
         let n = 1 + rng.below(4);
-        let mut u: Vec<AWord> = (0..n).map(|i| gen_word(rng, nl, nr, word_spaces, "u", i)).collect();
+        let mut u: Vec<AWord> = (0..n).map(|i| gen_word(rng, nl, nr, word_spaces, !nul_cover, "u", i)).collect();
         if !lex.is_empty() && rng.chance(1, 2) {
             let mut w = lex[rng.below(lex.len())].clone();
             w.f = "uh".into();
@@ -265,7 +276,10 @@ pub fn gen_sentence(rng: &mut Rng, d: &ADict, max_len: usize) -> Vec<u32> {
         _ => 1 + rng.below(max_len),
     };
     let mut s: Vec<u32> = vec![];
-    let alpha = alphabet();
+    let mut alpha = alphabet();
+    if d.ranges.iter().any(|r| r.lo == 0) {
+        alpha.retain(|c| *c <= 0xFFFF);
+    }
     while s.len() < target {
         match rng.below(10) {
             0..=3 if !d.lex.is_empty() => s.extend_from_slice(&rng.pick(&d.lex).s),
